@@ -4,6 +4,7 @@
 package s11
 
 import (
+	"context"
 	"encoding/json"
 	"fmt"
 	"reflect"
@@ -317,6 +318,100 @@ func lengthsFamily() seq.Family {
 	}
 }
 
+// ---- the context API: what is attached to one call's context stays with that context ----
+
+// apiCase runs a sequence of operations on two call contexts that are built from the SAME caller
+// map (contexts derived from a metadata-free parent) and compares with value semantics: a context
+// holds a copy of what was attached to it; attaching to one context, or editing the caller's map
+// afterwards, changes nothing else; the library never edits the caller's map.
+func apiCase(initial map[string]string, ops []string) string {
+	caller := map[string]string{}
+	for k, v := range initial {
+		caller[k] = v
+	}
+	callerModel := map[string]string{}
+	for k, v := range initial {
+		callerModel[k] = v
+	}
+	ctxs := [2]context.Context{context.Background(), context.Background()}
+	models := [2]map[string]string{{}, {}}
+	for step, op := range ops {
+		i := int(op[len(op)-1] - '0')
+		switch op[:len(op)-1] {
+		case "pairs": // a fresh call context from the shared caller map
+			ctxs[i] = drpcmetadata.AddPairs(context.Background(), caller)
+			models[i] = map[string]string{}
+			for k, v := range callerModel {
+				models[i][k] = v
+			}
+		case "add": // one more pair on that call's context
+			k, v := "x", fmt.Sprintf("v%d", step)
+			ctxs[i] = drpcmetadata.Add(ctxs[i], k, v)
+			models[i][k] = v
+		case "over": // overwrite a key the caller map also has
+			v := fmt.Sprintf("o%d", step)
+			ctxs[i] = drpcmetadata.Add(ctxs[i], "a", v)
+			models[i]["a"] = v
+		case "mutate": // the caller edits its own map afterwards
+			caller["a"], callerModel["a"] = "edited", "edited"
+			caller["new"], callerModel["new"] = "n", "n"
+		}
+	}
+	for i := range ctxs {
+		got, _ := drpcmetadata.Get(ctxs[i])
+		if !same(got, models[i]) {
+			return fmt.Sprintf("after %v on a caller map %v: the context of call %d carries %v, what was attached to it is %v", ops, initial, i, got, models[i])
+		}
+	}
+	if !same(caller, callerModel) {
+		return fmt.Sprintf("after %v: the caller's own map was changed by the library: %v, the caller made it %v", ops, caller, callerModel)
+	}
+	return ""
+}
+
+func apiFamily(maxLen int) seq.Family {
+	alphabet := []string{"pairs0", "pairs1", "add0", "add1", "over0", "over1", "mutate0"}
+	type c struct {
+		Initial map[string]string
+		Ops     []string
+	}
+	return seq.Family{
+		Name: fmt.Sprintf("context-api-sequences<=%d", maxLen),
+		Run: func(ctx *seq.Ctx) {
+			for _, initial := range []map[string]string{{}, {"a": "1"}, {"a": "1", "b": "2"}} {
+				var rec func(cur []string) bool
+				rec = func(cur []string) bool {
+					ctx.Count(1, len(cur)+2, 1)
+					if m := apiCase(initial, cur); m != "" {
+						if ctx.Fail(m, c{initial, cur}) {
+							return false
+						}
+					}
+					if len(cur) == maxLen {
+						return true
+					}
+					for _, op := range alphabet {
+						if !rec(append(append([]string{}, cur...), op)) {
+							return false
+						}
+					}
+					return true
+				}
+				if !rec(nil) {
+					return
+				}
+			}
+			ctx.Class("value-semantics")
+			ctx.Sample(c{map[string]string{"a": "1"}, []string{"pairs0", "pairs1", "add1"}})
+		},
+		Replay: func(in json.RawMessage) string {
+			var v c
+			_ = json.Unmarshal(in, &v)
+			return apiCase(v.Initial, v.Ops)
+		},
+	}
+}
+
 func families(tier string) []seq.Family {
 	full := make([]byte, 256)
 	for i := range full {
@@ -324,9 +419,9 @@ func families(tier string) []seq.Family {
 	}
 	reduced := []byte{0x00, 0x01, 0x02, 0x03, 0x0a, 0x12, 0x61, 0x80, 0xff}
 	if tier == "quick" {
-		return []seq.Family{mapsFamily(2), bytesFamily("decode-bytes<=3/full", full, 3), bytesFamily("decode-bytes<=7/9sym", reduced, 7), lengthsFamily()}
+		return []seq.Family{mapsFamily(2), bytesFamily("decode-bytes<=3/full", full, 3), bytesFamily("decode-bytes<=7/9sym", reduced, 7), lengthsFamily(), apiFamily(4)}
 	}
-	return []seq.Family{mapsFamily(3), bytesFamily("decode-bytes<=3/full", full, 3), bytesFamily("decode-bytes<=8/9sym", reduced, 8), lengthsFamily()}
+	return []seq.Family{mapsFamily(3), bytesFamily("decode-bytes<=3/full", full, 3), bytesFamily("decode-bytes<=8/9sym", reduced, 8), lengthsFamily(), apiFamily(5)}
 }
 
 func init() {
